@@ -20,4 +20,5 @@ fn named_syscall_state_per_key()
     let name = SysName::new::<fn(In<u8>, Local<u8>) -> u8>(7u32);
     let _ = name;
     std::mem::forget(world);
+    kani::cover!(true, "end of harness reached");
 }
